@@ -161,6 +161,20 @@ static void run_pure(void)
                         mon_count("evaluations", 2); mon_count("guarded_validations", 2);
                     }
                     if (cnt) { if (liberasurecode_verify_stripe_metadata(desc, plist, cnt) != 0) mon_viol("C15", "stripe-check-failed", "verify_stripe_metadata failed on pristine guarded fragments"); mon_count("evaluations", 1); }
+                    /* the metadata query on the same fragments as a host of the other byte order wrote them: read-only, ending
+                     * at (or starting behind) an inaccessible page like every other input */
+                    for (int i = 0; i < cnt && i < 3 && !oldw && s.flen >= 80; i++) {
+                        uint8_t *tw = g_alloc(s.flen, (e + i) & 1 ? G_START : G_END);
+                        memcpy(tw, pr.ptr[i], s.flen); ref_hdr_twin((const uint8_t *)pr.ptr[i], tw, 0); g_ro(tw);
+                        uint64_t dtw = mon_hash(tw, s.flen, 7);
+                        fragment_metadata_t ma, mb; memset(&ma, 0x11, sizeof ma); memset(&mb, 0x22, sizeof mb);
+                        int ra = liberasurecode_get_fragment_metadata(pr.ptr[i], &ma), rb = liberasurecode_get_fragment_metadata((char *)tw, &mb);
+                        mon_count("evaluations", 1); mon_count("guarded_opposite_endian_queries", 1);
+                        if (ra != 0 || rb != 0 || ma.idx != mb.idx || ma.size != mb.size || ma.orig_data_size != mb.orig_data_size || ma.chksum_mismatch != mb.chksum_mismatch || ma.chksum[0] != mb.chksum[0])
+                            mon_viol("C15", "opposite-endian-query-differs", "metadata query on a guarded opposite-endian copy of fragment %d: rc %d/%d, idx %u/%u size %u/%u mismatch %d/%d", idx[i], ra, rb, ma.idx, mb.idx, ma.size, mb.size, ma.chksum_mismatch, mb.chksum_mismatch);
+                        if (mon_hash(tw, s.flen, 7) != dtw) mon_viol("C15", "input-fragment-modified", "opposite-endian copy of fragment %d changed during the metadata query", idx[i]);
+                        g_free(tw);
+                    }
                     /* inputs unchanged (they are read-only, so a write would already have faulted) */
                     for (int i = 0; i < cnt; i++) if (mon_hash(pr.ptr[i], s.flen, 7) != dig[i]) { mon_viol("C15", "input-fragment-modified", "fragment %d changed", idx[i]); break; }
                     if (memcmp(plist, pr.ptr, sizeof(char *) * (size_t)cnt)) mon_viol("C15", "input-list-modified", "the caller's array of fragment pointers changed");
